@@ -221,6 +221,14 @@ def sibling_fresh(ctx, obs, exc, rule='SIB'):
 def invariants(ctx, obs, rule='STATE'):
     """support for the summary overrides: RDMs.dissimilarities is only ever assigned a 2-D vector form"""
     prog = ctx.prog
+    # support for the pure_origin exemption of data.noise._check_demean (in-place centring of a 3-D tensor): the tensor is fresh
+    qt = 'data.dataset.Dataset.get_measurements_tensor'
+    st = ctx.heap.summary(qt)
+    locs = set(st.ret) | (set(st.ret_comps[0]) if st.ret_comps else set())
+    shared = sorted(l for l in locs if is_param_loc(l))
+    obs.check(not shared, rule, qt, 'the measurements tensor handed to the noise estimators is a new array',
+              f'get_measurements_tensor may return {shared}: the exempted in-place centring of _check_demean then writes into the '
+              f'caller\'s dataset', '', where(prog, prog.func(qt), prog.func(qt).node))
     ok_producers = {'batch_to_vectors', 'concatenate'}
     for q, fi in sorted(prog.functions.items()):
         if q.startswith(('vis.', 'test.')):
